@@ -206,7 +206,7 @@ def store_race(R, quick, clause_filter=lambda name: name.startswith("(6)") or na
         mc = tlc.run("StepLock", cons(kinds, abort=abort, store=True), invariants=INV + ["Emit"], spec="Spec", workers=1)
         if mc.violation:
             R.violation("spec:" + mc.violation, {"kinds": kinds, "trace": mc.trace[:2000]})
-        dv = tlc.run("StepLock", cons(kinds, '{"D19c_save_after_unlock"}', abort=abort, store=True), invariants=["Emit"], spec="Spec", workers=1)
+        dv = tlc.run("StepLock", cons(kinds, '{"D19c_save_after_unlock","D19d_step_save_after_unlock"}', abort=abort, store=True), invariants=["Emit"], spec="Spec", workers=1)
         late = sorted({real(o["sched"]) for o in dv.emitted if o["stored"] != o["clock"]})
         ok = sorted({real(o["sched"]) for o in mc.emitted})
         cap = 6 if quick else 40
@@ -256,7 +256,7 @@ def run(tier, replay_file=None):
         late = []
         if store:
             # schedules under which a server that externalises AFTER releasing the lock leaves an older session in the store
-            dv = tlc.run("StepLock", cons(kinds, '{"D19c_save_after_unlock"}', abort=abort, store=True), invariants=["Emit"], spec="Spec", workers=1)
+            dv = tlc.run("StepLock", cons(kinds, '{"D19c_save_after_unlock","D19d_step_save_after_unlock"}', abort=abort, store=True), invariants=["Emit"], spec="Spec", workers=1)
             late = sorted({real(o["sched"]) for o in dv.emitted if o["stored"] != o["clock"]})
             R.cov["schedules_store_race"] = R.cov.get("schedules_store_race", 0) + len(late)
         plans.append((kinds, abort, scheds, store, late))
